@@ -205,6 +205,8 @@ class Result(object):
         self.layer_reduces = []  # (node, sel of the reduced value, method, funckey)
         self.wheres = []  # (node, cond, a, b, funckey)
         self.zips = []  # (node, zipped values, funckey)
+        self.layer_reduce_kind = {}  # id(node) -> "masked" | "plain": what the reduction along the layer axis was applied to
+        self.intops = []  # (node, grid, scalar, funckey): grid (+ - *) scalar where neither is known to be floating
         self.selstores = []  # (target node, comparison behind the boolean index or None, index value, stored value, funckey)
         self.weight_pairs = []  # (node, array tokens, scalar sym, funckey)
         self.sorteds = []  # (node, argument value, funckey)
@@ -1505,7 +1507,7 @@ class ArrayInterp(Interp):
             t = toks(it.L, it.part)
             gen = lambda s: frozenset("ELEM" if x in t else x for x in s)  # noqa: E731
             tmpl = replace(v, alias=gen(v.alias), M=gen(v.M), D=gen(v.D), Pc=gen(v.Pc), Pg=gen(v.Pg), dtprov=gen(v.dtprov), maskof=gen(v.maskof), dataof=gen(v.dataof), maskalias=gen(v.maskalias))
-            return Lst("masks" if (v.isbool and v.maskof) else "arrs", L=it.L, part=it.part, elem=tmpl)
+            return Lst("masks" if (v.isbool and v.maskof) else "arrs", L=it.L, part=it.part, elem=tmpl, sorted_=it.sorted_)
         if isinstance(it, Lst) and it.what == "range" and it.sliced is not None and isinstance(v, Arr) and not filtered:
             # an index walk over a whole input list: [f(xs[i]) for i in range(k, len(xs))] is the list [f(x) for x in xs[k:]]
             part = "rest" if it.sliced[0] == 1 else "all"
@@ -1891,6 +1893,11 @@ class ArrayInterp(Interp):
             self.finding("nonfinite", node, "`%s` combines the whole array with a scalar quotient whose divisor is computed from the data and can be 0 (a uniform field): the division happens between scalars, nothing is masked, and inf/nan (0 * inf) reaches every non-missing cell - a clamp cannot repair nan" % _src(node), fr)
         if isinstance(op, (ast.Mult, ast.Div)) and isinstance(b, Scal) and b.sym and not isinstance(node, ast.Compare):
             self.res.weight_pairs.append((node, a.D, b.sym, self.fkey(fr)))
+        if isinstance(b, Scal) and isinstance(op, (ast.Add, ast.Sub, ast.Mult)) and not isinstance(node, ast.Compare) and not a.isbool and a.shape in ("same", "stacked", "stackedlast", "flat") \
+                and (a.dt - F_) and (b.dt - F_) and (a.D or a.alias):
+            # grid (+ - *) scalar with neither known to be floating: numpy keeps the GRID's element type (a Python or numpy integer
+            # scalar does not widen an int8 / uint8 / int16 array), so the operation wraps around for narrow integer grids
+            self.res.intops.append((node, a, b, self.fkey(fr)))
         kinds = [a.kind] + ([b.kind] if isinstance(b, Arr) else [])
         if inplace:
             kind = a.kind
@@ -2516,6 +2523,7 @@ class ArrayInterp(Interp):
         ax0 = isinstance(ax, Scal) and ax.const == 0
         if not (base.isbool and base.kind == "plain" and base.maskof):
             self.res.layer_reduces.append((e, base.sel, what, self.fkey(fr)))  # (a reduction of the masks combines no data layers)
+            self.res.layer_reduce_kind[id(e)] = base.kind
         if base.shape == "stacked" and ax0 and base.isbool and base.kind == "plain" and base.maskof and what in ("any", "all", "max", "min", "sum"):
             # the masks of the layers combined along the layer axis: any/max/sum>0 is the union (covers every layer's missing
             # cells), all/min the intersection (covers none for certain when the layers differ)
